@@ -226,3 +226,66 @@ def match_known(pid, desc):
         if k.get('property') == pid and k.get('status') == 'known' and k.get('match') and k['match'] in desc:
             return k
     return None
+
+
+FORBIDDEN = re.compile(r'\b(Admitted|admit|Axiom|Axioms|Parameter|Parameters|Conjecture|Conjectures|Hypothesis|Hypotheses|Variable|Variables)\b|Unset\s+Guard\s+Checking|bypass_check|Unset\s+Positivity|Unset\s+Universe\s+Checking|native_compute|-type-in-type|Admit\s+Obligations')
+
+
+def coq_deps(targets):
+    """The .v files the given .vo targets depend on (transitively), from coqdep's .Makefile.d."""
+    deps = {}
+    try:
+        txt = open(f'{COQ}/.Makefile.d').read().replace('\\\n', ' ')
+    except OSError:
+        return None
+    for line in txt.split('\n'):
+        if ':' not in line:
+            continue
+        lhs, rhs = line.split(':', 1)
+        outs = [x for x in lhs.split() if x.endswith('.vo')]
+        ins = [x for x in rhs.split() if x.endswith('.vo')]
+        for o in outs:
+            deps.setdefault(o, set()).update(ins)
+    seen, stack = set(), list(targets)
+    while stack:
+        t = stack.pop()
+        if t in seen:
+            continue
+        seen.add(t)
+        stack += list(deps.get(t, ()))
+    return sorted(x[:-1] for x in seen if os.path.exists(f'{COQ}/{x[:-1]}'))
+
+
+def forbidden_constructs(vfiles):
+    """Admitted/admit/Axiom/Parameter/... anywhere in the development (comments stripped).
+    Variable/Hypothesis are allowed only inside a Section."""
+    bad = []
+    for vf in vfiles:
+        try:
+            src = open(f'{COQ}/{vf}').read()
+        except OSError:
+            continue
+        src = re.sub(r'\(\*.*?\*\)', lambda m: ' ' * len(m.group(0)), src, flags=re.S)
+        depth = 0
+        for ln, line in enumerate(src.split('\n'), 1):
+            if re.match(r'\s*(Section|Module\s+Type)\s', line):
+                depth += 1
+            if re.match(r'\s*End\s', line) and depth > 0:
+                depth -= 1
+            for m in FORBIDDEN.finditer(line):
+                w = m.group(0)
+                if re.match(r'(Variable|Variables|Hypothesis|Hypotheses)$', w):
+                    if depth > 0 or not re.match(r'\s*(Variable|Variables|Hypothesis|Hypotheses)\b', line):
+                        continue
+                if w in ('Parameter', 'Parameters') and not re.match(r'\s*(Parameter|Parameters)\b', line):
+                    continue
+                if w == 'admit' and not re.search(r'(^|[.;\s(\[])admit\s*[.;)\]|]', line):
+                    continue
+                bad.append(f'{vf}:{ln}: {w}')
+    return bad
+
+
+def coqchk(pid, timeout=2400):
+    """Independent re-check of props/<pid>.vo and its dependencies; returns (rc, axioms text, seconds)."""
+    rc, out, dt = sh(['coqchk', '-silent', '-o', '-Q', '.', 'Tink', f'Tink.props.{pid}'], timeout=timeout, cwd=COQ)
+    return rc, out[-3000:], dt
